@@ -841,3 +841,91 @@ func vC17SenderEndOnce(slow int) {
 
 var vSenderControlWatch func(p []byte)
 var vSenderSlowData int
+
+// ---------------------------------------------------------------------------------------------
+// C06 (data file gone or shortened): resume metadata of the right identity sits in the output directory
+// (symbolic bitmap), but the data file it describes is missing, shortened to fewer bytes, or intact. The
+// real RecvManifestMultiStream runs (goroutines as symbolic threads, one preemption at a select so that
+// the report writer gets to run) against a scripted sender that asks for the resume report and then
+// ends the transfer without sending a chunk. Asserted on every FileResumeInfo the receiver wrote: a
+// chunk is advertised as present only if all of its bytes were in the data file when the run began -
+// the sender skips exactly what is advertised (C04.plan), so anything else would be skipped data. With
+// an intact file the marked chunks are advertised (resume still works).
+func H_C06_datafile() {
+	size := 5
+	total := 2
+	src := vBytes("src", size)
+	item := manifest.FileItem{RelPath: "f", Size: int64(size), ID: "idf"}
+	m := manifest.Manifest{Items: []manifest.FileItem{item}, TotalBytes: int64(size), FileCount: 1}
+	key := fileKeyForItem(item)
+	bits := vU8("bitmap")
+	vAssume(bits>>uint(total) == 0)
+	out := vTempDir() + "/out"
+	have := -1 // bytes of the data file present before the run; -1: no file
+	switch vChoice("dataFile", 3) {
+	case 0:
+		vTag("missing")
+	case 1:
+		have = []int{0, 3, 4}[vChoice("keptBytesIdx", 3)] // empty, inside chunk 0, at the chunk boundary
+		vTag("shortened")
+	default:
+		have = size
+		vTag("intact")
+	}
+	if have >= 0 {
+		old := vBytes("old", size)
+		for i := 0; i < total; i++ {
+			if bits&(1<<uint(i)) != 0 {
+				lo, hi := i*4, i*4+4
+				if hi > size {
+					hi = size
+				}
+				copy(old[lo:hi], src[lo:hi]) // what was marked was written (C05); bytes beyond `have` are lost
+			}
+		}
+		vTempFile("out/f", old[:have])
+	} else {
+		vTempFile("out/other", []byte{1}) // the output directory itself exists
+	}
+	sc := &Sidecar{Path: SidecarPath(out, "", sidecarIdentifier(item)), FileID: item.ID, FileSize: int64(size), ChunkSize: 4, TotalChunks: uint32(total),
+		bitmap: &Bitmap{bits: total, data: []byte{bits}}, dirty: true}
+	vAssume(sc.Flush() == nil)
+
+	control := &vMemStream{buf: vControlBytes(m)}
+	_ = writeDataStreams(control, DataStreams{Count: 1})
+	_ = writeFileBegin(control, FileBegin{RelPath: "f", FileSize: uint64(size), ChunkSize: 4, StreamID: key, HashAlg: HashAlgCRC32C})
+	_ = writeResumeRequest(control, ResumeRequest{FileID: item.ID, StreamID: key})
+	data := &vMemStream{} // no chunk arrives in this run: every report describes what was found on disk
+	_ = writeControlEnd(control)
+	conn := &vScriptConn{streams: []Stream{control, data}}
+	_, err := RecvManifestMultiStream(vContext("ctx", false), conn, out, Options{NoRootDir: true, Resume: true, ResumeVerify: "last"})
+	rep := &vMemStream{buf: control.out}
+	for {
+		typ, msg, rerr := readControlMessage(rep)
+		if rerr != nil {
+			break
+		}
+		if typ != controlTypeFileResumeInfo {
+			continue
+		}
+		ri := msg.(FileResumeInfo)
+		vCover("C06 datafile: report seen")
+		adv := byte(0)
+		if len(ri.Bitmap) > 0 {
+			adv = ri.Bitmap[0]
+		}
+		for i := 0; i < total; i++ {
+			hi := i*4 + 4
+			if hi > size {
+				hi = size
+			}
+			if adv&(1<<uint(i)) != 0 {
+				vAssert(hi <= have, "a chunk is advertised as present only if its bytes were in the data file")
+			}
+		}
+		if have == size {
+			vAssert(adv == bits, "with the data file intact the marked chunks are advertised")
+		}
+	}
+	vAssert(err != nil, "a transfer that ends with the file incomplete is reported as failed")
+}
